@@ -78,9 +78,6 @@ INV_H = [
     H(INV_DE, 'h_int_roundtrip', 'invoice_de', 'int_roundtrip', ['u64'], 'parse_u64_be(encode_int_be_base32(x)) == Some(x) with exactly encoded_int_be_base32_size(x) digits and no leading zero digit, for every u64',
       ['ser::encode_int_be_base32', 'ser::encoded_int_be_base32_size', 'de::parse_u64_be']),
     H(INV_DE, 'h_u16_parse', 'invoice_de', 'u16_parse', ['u8', 'u8', 'u8'], 'three base-32 digits always parse as the big-endian u16 they denote', ['de::parse_u16_be']),
-    H(INV_LIB, 'h_amount_roundtrip', 'invoice_lib', 'amount_roundtrip', ['u64'],
-      'InvoiceBuilder::amount_milli_satoshis(a) then RawBolt11Invoice::amount_pico_btc() == a*10 with the largest SI prefix that divides; overflowing amounts are refused',
-      ['InvoiceBuilder::amount_milli_satoshis', 'RawBolt11Invoice::amount_pico_btc', 'SiPrefix::multiplier', 'SiPrefix::values_desc']),
 ]
 
 GROUPS = {
@@ -244,6 +241,12 @@ def run_groups(prop, groups, tier):
                         e['status'] = 'undecided'
                 continue
             failed_checks = re.findall(r'Failed Checks: (.*)', out2)
+            if any('unwinding assertion' in c for c in failed_checks):
+                res['undecided'].append('kani harness %s: unwinding bound too small for the current code (harness needs maintenance): %s' % (h['short'], '; '.join(failed_checks)[:300]))
+                for e in res['harnesses']:
+                    if e['name'] == h['short']:
+                        e['status'] = 'undecided'
+                continue
             args = decode_playback(out2, h['types'])
             nat = None
             if args is not None:
